@@ -199,3 +199,24 @@ Fixpoint icy_body (m o : N) (ls : list N) : data :=
   | [] => []
   | l :: t => (o, m) :: (1000 + l, 1) :: (2000, 16 * l) :: icy_body m (o + m) t
   end.
+
+(* ---- metadata probing: get_buffered_io_metadata on an io-style wrapper (BufferedIOBaseWrapper,
+   StreamableSourceWrapper).  [script] is what the tag parser does with the file object - any reads
+   and seeks; the helper itself is
+
+       before = buffer.tell()
+       if buffer.seek(0) != 0: return EMPTY_METADATA
+       try:     return await get_metadata(buffer)
+       finally: buffer.seek(0); buffer.seek(before)                                        *)
+Definition io_probe (k : kind) (script : list op) (w : wst) : bool * wst :=
+  let before := b_pos (w_buf w) in
+  let '(r0, w0) := step k (OSeek 0 true) w in
+  match r0 with
+  | RNum 0 =>
+      let w1 := run_state k script w0 in
+      let w2 := snd (step k (OSeek 0 true) w1) in
+      (true, snd (step k (OSeek before true) w2))
+  | _ => (false, w0)
+  end.
+
+Definition no_protect (o : op) : Prop := match o with OProt _ => False | _ => True end.
